@@ -73,6 +73,30 @@ def owntests(R, ids):
     return bad
 
 
+def probe(R):
+    """Instrumenter self-test on synthetic constructs: copy the repository, add package verifprobe, instrument it
+    with the scheduling rules and run harness/probe against the copy."""
+    import shutil
+    with R.Scratch() as scratch:
+        repo2 = os.path.join(scratch, "repo")
+        shutil.copytree(R.REPO, repo2, ignore=shutil.ignore_patterns(".git"))
+        os.makedirs(os.path.join(repo2, "verifprobe"))
+        shutil.copy(os.path.join(R.VERIF, "harness", "probe", "probe_src.go.txt"), os.path.join(repo2, "verifprobe", "probe.go"))
+        saved = R.REPO
+        R.REPO = repo2
+        try:
+            overlay, rep = R.instrument({"packages": ["verifprobe"], "rules": "sched"}, scratch)
+            binp = R.build_harness({"harness": "probe"}, scratch, overlay)
+        finally:
+            R.REPO = saved
+        p = subprocess.run([binp, "-test.run", "^TestProbe$", "-test.v", "-test.count", "1"], env=R.ENV, cwd=scratch, stdout=subprocess.PIPE, stderr=subprocess.STDOUT, text=True)
+        tail = [l for l in p.stdout.splitlines() if "seeds" in l or "FAIL" in l or "seed " in l][-4:]
+        print("instrumenter probe (Cond, Once, WaitGroup.Go, labelled select, range/comma-ok receive, deferred close, time.Sleep; sites %s): %s" % (rep["totals"], "PASS" if p.returncode == 0 else "FAIL"))
+        for l in tail:
+            print("  " + l.strip())
+        return 0 if p.returncode == 0 else 1
+
+
 def main(args, R):
     import io, contextlib, time
     ids = args.ids or sorted(R.CHECKS)
@@ -91,6 +115,8 @@ def main(args, R):
             bad += determinism(R, ids, args.seeds)
         if args.what in ("all", "owntests"):
             bad += owntests(R, ids)
+        if args.what in ("all", "probe"):
+            bad += probe(R)
     if args.what == "all" and not args.ids:
         json.dump({"when": time.strftime("%Y-%m-%d %H:%M:%S"), "seeds_per_range": args.seeds, "failures": bad, "lines": buf.getvalue().splitlines()},
                   open(os.path.join(R.VERIF, "selftest_report.json"), "w"), indent=1)
